@@ -148,6 +148,38 @@ func runC07(env *Env, tier string) {
 			} else {
 				p.OutSeq = before.T
 			}
+			if hasFlag && ch.Chance("stalelogonwithresetflag", 1, 9) {
+				// A Logon that asks for a reset but fails the session-level checks (SendingTime far outside
+				// the window): it is refused, so nothing was agreed and nothing may be reset.
+				p.OutSeq = 1
+				env.Note("round %d: peer Logon 34=1 141=Y with a SendingTime ten minutes old", round)
+				p.Send("A", p.LogonBody(c.HeartBtInt, true), MsgOpt{TimeDelta: -10 * time.Minute})
+				env.Stat("probe_defective_logon_with_reset_flag")
+				post := c07Take(s)
+				if _, established := LastOfType(p.Recv, "A"); established && p.Connected() {
+					// (the engine accepted it: CheckLatency must be off - not configured here)
+					env.Violate("C07/continuity", "a Logon with a ten-minute-old SendingTime was accepted")
+					break
+				}
+				if !c.ResetOnDisconnect {
+					if n := resetCalls(s, mark); n != 0 {
+						env.Violate("C07/unagreed-reset", "store Reset called %d times for a Logon with ResetSeqNumFlag=Y that was refused for its SendingTime", n)
+						break
+					}
+					if len(post.msgs) < len(before.msgs) || post.S < before.S || post.T < before.T {
+						env.Violate("C07/continuity", "a refused Logon (stale SendingTime, 141=Y) moved the counters from S=%d T=%d to S=%d T=%d, stored messages %d -> %d", before.S, before.T, post.S, post.T, len(before.msgs), len(post.msgs))
+						break
+					}
+				}
+				if p.Connected() {
+					p.Drop()
+				}
+				carried = c07Take(s)
+				carriedMark = env.EventN()
+				p.EP = nil
+				env.Advance(500 * time.Millisecond)
+				continue
+			}
 			if ch.Chance("apprefuseslogon", 1, 7) {
 				// The application refuses this Logon (FromAdmin returns RejectLogon): the engine answers with a
 				// Logout and ends the connection. Nothing was agreed, so nothing may be reset - whatever the
